@@ -174,6 +174,13 @@ let rec flat_map f = function
 | [] -> []
 | x :: t -> app (f x) (flat_map f t)
 
+(** val fold_left : ('a1 -> 'a2 -> 'a1) -> 'a2 list -> 'a1 -> 'a1 **)
+
+let rec fold_left f l a0 =
+  match l with
+  | [] -> a0
+  | b :: t -> fold_left f t (f a0 b)
+
 (** val existsb : ('a1 -> bool) -> 'a1 list -> bool **)
 
 let rec existsb f = function
@@ -387,6 +394,86 @@ let compile_error f e h =
           | _ -> false)
     else false
   | None -> false
+
+type wstate = { w_members : member list; w_cinit : bool; w_reduce : bool }
+
+type scope_sel = cls -> cls -> cls
+
+(** val sel_cls : scope_sel **)
+
+let sel_cls _ k =
+  k
+
+(** val sel_node : scope_sel **)
+
+let sel_node node _ =
+  node
+
+(** val walk_step :
+    scope_sel -> scope_sel -> cls -> wstate -> cls -> wstate **)
+
+let walk_step sc sr node w k =
+  { w_members = (app w.w_members (own_members k)); w_cinit =
+    ((||) w.w_cinit (sc node k).c_cinit); w_reduce =
+    ((||) w.w_reduce (sr node k).c_reduce) }
+
+(** val walk : scope_sel -> scope_sel -> cls -> hierarchy -> wstate **)
+
+let walk sc sr node h =
+  fold_left (walk_step sc sr node) h { w_members = []; w_cinit = false;
+    w_reduce = false }
+
+(** val decide_core : flags -> bool -> bool -> member list -> decision **)
+
+let decide_core f forced cinit ms =
+  let np = filter (fun m -> non_py f m.m_kind) ms in
+  let st = filter (fun m -> is_struct m.m_kind) ms in
+  if cinit
+  then InjectRaise (RCinit, [])
+  else (match np with
+        | [] ->
+          (match st with
+           | [] -> InjectPickle ms
+           | _ :: _ ->
+             if forced
+             then InjectPickle ms
+             else InjectRaise (RStruct, (map (fun m -> m.m_name) st)))
+        | _ :: _ -> InjectRaise (RNonPy, (map (fun m -> m.m_name) np)))
+
+(** val decide_walk :
+    scope_sel -> scope_sel -> flags -> modenv -> hierarchy -> decision **)
+
+let decide_walk sc sr f e h = match h with
+| [] -> NoInject
+| node :: _ ->
+  if (||) node.c_reduce ((&&) (negb f.fx_lookup) e.g_reduce)
+  then NoInject
+  else (match node.c_auto with
+        | Some b ->
+          if b
+          then let w = walk sc sr node h in
+               let ms = sort_m w.w_members in
+               if w.w_reduce
+               then NoInject
+               else decide_core f true
+                      ((||) w.w_cinit ((&&) (negb f.fx_lookup) e.g_cinit)) ms
+          else NoInject
+        | None ->
+          let w = walk sc sr node h in
+          let ms = sort_m w.w_members in
+          if w.w_reduce
+          then NoInject
+          else decide_core f false
+                 ((||) w.w_cinit ((&&) (negb f.fx_lookup) e.g_cinit)) ms)
+
+(** val decide_walk_n : nat -> flags -> modenv -> hierarchy -> decision **)
+
+let decide_walk_n = function
+| O -> decide_walk sel_cls sel_cls
+| S n1 ->
+  (match n1 with
+   | O -> decide_walk sel_node sel_cls
+   | S _ -> decide_walk sel_cls sel_node)
 
 (** val installed : hierarchy -> bool **)
 
